@@ -20,6 +20,12 @@
    that own them (C01: replay applies the pending records; C42: vacuum keeps every row's
    status and content; C14: since fix 83a83e8 a vector rebuild re-encodes the entries of the index it can
    still load -- only a damaged index, which holds the embeddings nowhere else, comes back empty).
+   Payload placement is abstracted away: the model has no byte layout (no payload windows, no
+   cached_payload_end / data_end, no position of the index area).  That rebuild_indexes writes the index
+   area BEHIND every payload -- also when payload ranges are shared (payload-less update: a newer frame
+   points at an older frame's bytes) or not monotone in the frame id (vacuum, update) -- is an assumption
+   here (owned byte-exactly by C42 for vacuum); for doctor it is tied only by the property oracle on real
+   files whose histories contain those idioms (harness history profiles 1-4).
    Not modelled: I/O errors, a header whose own magic/version is damaged (HeaderDecodeFailure),
    the legacy (pre-Tantivy) lexical index and the parallel-segments vector catalog, memory
    cards / mesh / sketch tracks, lock contention. *)
